@@ -15,7 +15,7 @@ J = 'src/jsontypes.rs'
 MUTANTS = [
     ('hermes::SourceMapHermes::rewrite', r'verif_take_at\(&mut function_maps, \*idx as usize\)', 'verif_take_at(&mut function_maps, coll__1.len())'),
     ('hermes::SourceMapHermes::rewrite', r'verif_take_at\(&mut sources, idx as usize\)', 'verif_take_at(&mut sources, 0)'),
-    ('hermes::SourceMapHermes::rewrite', r'for idx in mapping\.iter\(\) \{', 'for idx in mapping.iter().skip(1) {'),
+    ('hermes::SourceMapHermes::rewrite', r'coll__1\.push\(item__\);', 'if coll__1.len() != 1 { coll__1.push(item__); } else { coll__1.push(None); }'),
 ]
 
 
